@@ -1,7 +1,8 @@
 ------------------------------- MODULE FiberTrace -------------------------------
 (* C08, binding T.  Recorded FIBER calls (tracer hook) and measurements, judged here.
-     ctrl   [phi_ppb, L_ppb, nsteps, bound, steps: sequence of [kind, hk_ppb]]     controller trace of one call:
-              hk_ppb  = |h * gamma * peak_before / phi_max - 1| in ppb for every adaptive step, peak_before being the maximum over
+     ctrl   [phi_ppb, L_ppb, nsteps, bound, steps: sequence of [kind, hk_ppb, forward, inside]]     controller trace of one call:
+              hk_ppb  = |h / min(phi_max / (gamma * peak_before), L) - 1| in ppb for every adaptive step (forward: h > 0; inside: the
+                        position reached does not exceed L), peak_before being the maximum over
                         samples of the TOTAL power of both polarisations of the field the step was computed from (measured by the harness)
               L_ppb   = |sum of all steps / L - 1| in ppb;  nsteps <= bound = ceil(gamma * Pmax * L / phi_max) + 2
      energy [ppb, dB]            |E_out / (E_in 10^(-alpha L/10)) - 1| per polarisation
@@ -15,11 +16,13 @@
 EXTENDS Integers, Sequences, TLC, Json, IOUtils
 Trace == ndJsonDeserialize(IOEnv.IN_FILE)
 Laws == {"SPM-closed-form", "SPM-closed-form-with-loss", "1pol=x-row-of-2pol-with-empty-y", "SPM-lattice-j^m", "linear-limit=DM",
-         "result-independent-of-call-history"}
+         "result-independent-of-call-history", "real-dtype-field=complex-dtype-field"}
 Cx10(name) == IF name = "fundamental-soliton-error<=C*phi_max" THEN 1 ELSE 20
 Clauses(e) ==
   CASE e.kind = "ctrl" ->
         (IF \E i \in 1..Len(e.steps) : e.steps[i].kind # "last" /\ e.steps[i].hk_ppb > 1000 THEN {"step-from-peak-total-power"} ELSE {}) \cup
+        (IF \E i \in 1..Len(e.steps) : ~e.steps[i].forward THEN {"step-backwards"} ELSE {}) \cup
+        (IF \E i \in 1..Len(e.steps) : ~e.steps[i].inside THEN {"step-beyond-the-fibre-end"} ELSE {}) \cup
         (IF e.L_ppb > 1000 THEN {"steps-sum-to-length"} ELSE {}) \cup
         (IF e.nsteps > e.bound THEN {"too-many-steps"} ELSE {})
     [] e.kind = "energy" -> IF e.ppb > 1000 + e.dB * 20000 THEN {"energy-conserved-up-to-loss"} ELSE {}
